@@ -186,6 +186,23 @@ func checkTreeContent(fs *h.ForkSession, sh *shadowLog) [][2]string {
 		if c.ParentIndex() != int64(a.Parent) {
 			add("parent", fmt.Sprintf("%s: parent %d, issuing frame was %d", tag, c.ParentIndex(), a.Parent))
 		}
+		// "in program order under the frame that issued it": the node lists exactly the attempts this frame issued, in
+		// the order it issued them (both through the query and in the nodes it points to)
+		var wantKids, gotKids, linkKids []uint64
+		for _, k := range a.Children {
+			wantKids = append(wantKids, uint64(k))
+		}
+		gotKids = c.ChildrenIndices()
+		for _, k := range c.Children {
+			if k != nil {
+				linkKids = append(linkKids, k.Index)
+			}
+		}
+		if fmt.Sprint(gotKids) != fmt.Sprint(wantKids) && !(len(gotKids) == 0 && len(wantKids) == 0) {
+			add("children-order", fmt.Sprintf("%s: lists children %v, the frame issued attempts %v in that order", tag, gotKids, wantKids))
+		} else if fmt.Sprint(linkKids) != fmt.Sprint(wantKids) && !(len(linkKids) == 0 && len(wantKids) == 0) {
+			add("children-order", fmt.Sprintf("%s: points to children %v, the frame issued attempts %v in that order", tag, linkKids, wantKids))
+		}
 		// outcome
 		if a.Entered || a.Top {
 			if a.ExitSeq == 0 {
@@ -271,6 +288,30 @@ func callTreeWorkload(c Case, tier string, res *CaseResult, each func(tr treeRun
 				}
 			}
 			res.Count("cancelled_context_runs", 1)
+		} else if ctxMode == 3 || ctxMode == 4 {
+			// a consumer (debug hook, Aspect, host) reads the tree through its public API WHILE the transaction runs:
+			// looking must not change what the tree answers later
+			n := 0
+			fs.Rec.OnStep = func(e *h.Event, scope *avm.ScopeContext) {
+				if n++; n%3 != 0 {
+					return
+				}
+				ct := fs.EVM.Tracer().CallTree()
+				_ = ct.Root()
+				_ = ct.Current()
+				for i := uint64(0); ; i++ {
+					node := ct.FindCall(i)
+					if node == nil {
+						break
+					}
+					_ = node.ChildrenIndices()
+					_ = node.ParentIndex()
+					_ = node.IsRoot()
+					_ = ct.ChildrenOf(i)
+					_ = ct.ParentOf(i)
+				}
+				res.Count("mid_run_tree_reads", 1)
+			}
 		}
 		ir := fs.Invoke(dc.Tx)
 		if ir.Panic != "" {
@@ -286,6 +327,9 @@ func callTreeWorkload(c Case, tier string, res *CaseResult, each func(tr treeRun
 			cancel()
 			fs.Ctx = h.WithExec(context.Background(), fs.X)
 			fs.Rec.OnStep = nil
+		}
+		if ctxMode == 4 {
+			fs.Rec.OnStep = nil // (3: the reader keeps looking during the follow-up transactions too)
 		}
 		// repeated top-level invocations on the same EVM
 		r := h.NewRNG(c.Seed ^ 0x77)
